@@ -59,6 +59,21 @@ def flat_cases(tier):
                                  optional={'history': _history})
 
 
+# small programs in which a parameter placeholder meets default values / star parameters inside a commutative operation
+CORNER_PROGRAMS = ["y = (lambda x=1: x)(2) + 1\n", "y = 2 * (lambda a, b=3: a + b)(1)\n", "def f(a, b=2):\n    return a + b\nz = f(1) + f(2, b=3)\n",
+                   "g = (lambda *args, **kw: len(args) + len(kw))(1, k=2) + 0\n", "def h(p, /, q=1, *, r=2):\n    return p + q * r\nprint(h(1) + h(2, 3, r=4))\n"]
+
+
+def corner_cases(tier):
+    for code in CORNER_PROGRAMS:
+        for frag in range(6):
+            for kind in ('rename', 'wild'):
+                for idx in range(5):
+                    yield {'code': code, 'derivation': {'frag': frag, 'steps': [[kind, idx, True]]}}
+                    yield {'code': code, 'derivation': {'frag': frag, 'steps': [['rename', idx, True], [kind, idx + 1, False]]}}
+
+
+ENUMS = {'corner': corner_cases}
 STRATEGIES = {'derived': cases, 'flat': flat_cases}
 
 
@@ -149,4 +164,4 @@ def judge(case):
 
 def plan(tier):
     n = 500 if tier == 'quick' else 20000
-    return [Task('hyp', 'derived', shards=8, examples=scale(n)), Task('hyp', 'flat', shards=8, examples=scale(3 * n))]
+    return [Task('hyp', 'derived', shards=8, examples=scale(n)), Task('hyp', 'flat', shards=7, examples=scale(3 * n)), Task('enum', 'corner', shards=1)]
